@@ -1,12 +1,17 @@
 import Srtla.Lemmas.ForwardRun
 import Srtla.Lemmas.SendAll
 import Srtla.Lemmas.RunLevelGhost
+import Srtla.Lemmas.SysDir
+import Srtla.Lemmas.SysInvQual
 import Srtla.Props.C03
 /-!
 # C01 — the uplink path forwards every SRT datagram intact, once, in per-link order
 
-Model: `Srtla.Sys` (`Model/Sys.lean`), the sender shell as a step function over events
-(`client`, `uplink`, `flush`, `hk`, `setCfg`, `crit`, `failNext`); run bit-for-bit against the real
+Model: `Srtla.Sys` (`Model/Sys.lean`), the sender shell as a step function over ELEVEN event constructors
+(`client`, `uplink`, `flush`, `hk`, `setCfg`, `crit`, `failNext`, `failBind`, `stamp`, `syncTimeout`:
+client datagram, uplink datagram, 15 ms flush tick, housekeeping tick, configuration change, keyframe window,
+the two fault injections — next batch send fails / next socket re-creation fails —, the classifier / link-CC
+verdict stamp, and the per-tick refresh of every link's timeout copy); run bit-for-bit against the real
 event-loop arms by component `sys`.  All theorems below hold for EVERY scalar type `F` with EVERY
 `[Scalar F]` instance (selection decisions are opaque: `runSelect` returns some index or none), hence
 for the `Float` instance of the compiled driver; the only exception is the last section, which imports
@@ -25,7 +30,11 @@ Vocabulary (definitions in `Lemmas/Forward*.lean`; all are plain functions of th
 * `dataWire ev out c` — data-path output of one event for conn id `c`: `wireOf c out.wire` for `client` and
   `flush` events, nothing for the others (what `uplink`/`hk` events send — REG1/REG2, keepalives — is built
   by the shell and provably never comes from a queue: in those events a queue is untouched or discarded).
-* `LossCause s ev i l l'` — the four admissible reasons for discarding queued datagrams.
+* `LossCause s ev i l l'` — the four admissible reasons for discarding queued datagrams, each WITH ITS CAUSE
+  (a fact about the pre-state and the event, `C01_loss_cause_def`): `client` / `flush` — the event CONSUMED an
+  injected send failure for the link's conn id (its multiplicity in `failNext` went down); `uplink` — a REG3 /
+  REG_ERR arrived on the link's conn id; `hk` — the link was timed out and due for a reconnect attempt when the
+  tick started.  `setCfg`, `crit`, `failNext`, `failBind`, `stamp`, `syncTimeout` never discard anything.
 * `run`, `wireLog`, `arrivals`, `clientItems`, `probeCopies`, `gatedRouted` — per-link logs of a run.
 * `runG`, `ginit`, `G`, `Bins`, `GItem`, `ucount` (`Lemmas/RunLevelGhost.lean`) — the ghost-instrumented run of
   section 10: fresh tags for accepted datagrams, per-link bins queued / wire / lost, the dropped list.
@@ -326,14 +335,19 @@ theorem C01_flush_empties (s : Sys F) (hnd : (ids s.links).Nodup) (now : Nat) :
 
 /-- **Nothing vanishes.**  If an item that link `i` held before an event, or that the event appended
 to it, is afterwards neither in the link's queue nor among the datagrams the event put on the link's
-socket, then the event discarded the queue for one of the four admissible reasons (`LossCause`):
-* `client`: a send failure was pending for the conn id, the threshold flush failed and the link was
-  reset by `mark_for_recovery` (disconnected, phase registering);
-* `flush`: a send failure was pending for the conn id (failed periodic send; the batch is lost);
-* `uplink`: the packet arrived on this very link and is a REG3 (`clear_pre_registration_state`) or a
-  REG_ERR (`mark_for_recovery`);
-* `hk`: housekeeping started a reconnect of this link at `now` (`reset_for_reconnect`).
-`setCfg`, `crit`, `failNext` events never discard anything. -/
+socket, then the event discarded the queue for one of the four admissible reasons (`LossCause`, each with its
+CAUSE in the pre-state — `C01_loss_cause_def`):
+* `client`: a send failure was pending for the conn id AND THIS EVENT CONSUMED IT (`failNext` holds the conn id
+  strictly fewer times afterwards): the threshold flush failed and the link was reset by `mark_for_recovery`
+  (disconnected, phase registering);
+* `flush`: a send failure was pending for the conn id and this event consumed it (failed periodic send; the
+  batch is lost);
+* `uplink`: the packet arrived on this very link's conn id and is a REG3 (type 0x9202,
+  `clear_pre_registration_state`) or a REG_ERR (type 0x9210, `mark_for_recovery`);
+* `hk`: the link — as the tick found it — was timed out at `now` and `should_attempt_reconnect(now)` held, and
+  housekeeping started a reconnect of it at `now` (`reset_for_reconnect`, or `mark_for_recovery` when the socket
+  re-creation failed).
+`setCfg`, `crit`, `failNext`, `failBind`, `stamp`, `syncTimeout` events never discard anything. -/
 theorem C01_lost_only_by_reset_or_failed_send (s : Sys F) (ev : Ev) (hnd : (ids s.links).Nodup)
     (i : Nat) (l l' : FLink F) (hl : s.links[i]? = some l) (hl' : (step s ev).1.links[i]? = some l')
     (x : QItem) (hx : x ∈ l.queue ++ appended s ev i) (hq : x ∉ l'.queue)
@@ -349,21 +363,56 @@ theorem C01_lost_only_by_reset_or_failed_send (s : Sys F) (ev : Ev) (hnd : (ids 
     exact absurd (List.mem_map.2 ⟨x, hx, rfl⟩) hw
   · exact g.2.2
 
-/-- The four causes, spelled out. -/
+/-- **The causes, spelled out** (all eleven event constructors).  Each admissible arm is a statement about the
+PRE-state `s`, `l` and the event — the cause — together with the shape of the post-state `l'`:
+* `client`: the conn id was in `failNext`, the event CONSUMED one such injection (`failNext` of the post-state
+  holds the conn id strictly fewer times), and the link is torn down (not connected, registering);
+* `flush`: the conn id was in `failNext` and the event consumed one such injection;
+* `uplink`: the datagram's conn id is this link's, and the registration layer's verdict is REG3 or REG_ERR —
+  equivalently (third conjunct) its type code is 0x9202 or 0x9210;
+* `hk`: `l.isTimedOut now ∧ l.shouldAttemptReconnect now` on the record the tick started with, and the
+  post-state carries the attempt stamp `now`, is not connected and is registering;
+* `setCfg`, `crit`, `failNext`, `failBind` (the two fault INJECTIONS themselves lose nothing: only the later
+  `client` / `flush` / `hk` event that consumes one does), `stamp`, `syncTimeout`: never. -/
 theorem C01_loss_cause_def (s : Sys F) (i : Nat) (l l' : FLink F) :
     (∀ now pkt, LossCause s (.client now pkt) i l l' ↔
-      (l.core.connId ∈ s.failNext ∧ l'.core.connected = false ∧ l'.core.phase = .registering)) ∧
-    (∀ now, LossCause s (.flush now) i l l' ↔ l.core.connId ∈ s.failNext) ∧
+      ((l.core.connId ∈ s.failNext ∧ l'.core.connected = false ∧ l'.core.phase = .registering) ∧
+        (step s (.client now pkt)).1.failNext.count l.core.connId < s.failNext.count l.core.connId)) ∧
+    (∀ now, LossCause s (.flush now) i l l' ↔
+      (l.core.connId ∈ s.failNext ∧
+        (step s (.flush now)).1.failNext.count l.core.connId < s.failNext.count l.core.connId)) ∧
     (∀ now cid data, LossCause s (.uplink now cid data) i l l' ↔
       (cid = l.core.connId ∧
         ((Reg.processRegistrationPacket s.reg i data now).2 = some .reg3 ∨
-         (Reg.processRegistrationPacket s.reg i data now).2 = some .regErr))) ∧
+         (Reg.processRegistrationPacket s.reg i data now).2 = some .regErr) ∧
+        (Codec.getPacketTypeS data = some 0x9202 ∨ Codec.getPacketTypeS data = some 0x9210))) ∧
     (∀ now, LossCause s (.hk now) i l l' ↔
-      (l'.lastAttemptMs = now ∧ l'.core.connected = false ∧ l'.core.phase = .registering)) ∧
+      (l.isTimedOut now = true ∧ l.shouldAttemptReconnect now = true ∧
+        l'.lastAttemptMs = now ∧ l'.core.connected = false ∧ l'.core.phase = .registering)) ∧
     (∀ cfg, ¬ LossCause s (.setCfg cfg) i l l') ∧ (∀ d, ¬ LossCause s (.crit d) i l l') ∧
-    (∀ c, ¬ LossCause s (.failNext c) i l l') :=
-  ⟨fun _ _ => Iff.rfl, fun _ => Iff.rfl, fun _ _ _ => Iff.rfl, fun _ => Iff.rfl,
-   fun _ h => h, fun _ h => h, fun _ h => h⟩
+    (∀ c, ¬ LossCause s (.failNext c) i l l') ∧ (∀ c, ¬ LossCause s (.failBind c) i l l') ∧
+    (∀ idx w ld ccb cct, ¬ LossCause s (.stamp idx w ld ccb cct) i l l') ∧
+    ¬ LossCause s .syncTimeout i l l' := by
+  refine ⟨fun _ _ => Iff.rfl, fun _ => Iff.rfl, fun now cid data => ?_, fun _ => Iff.rfl,
+    fun _ h => h, fun _ h => h, fun _ h => h, fun _ h => h, fun _ _ _ _ _ h => h, fun h => h⟩
+  obtain ⟨hE, h3⟩ := Hk.regEvent_of_type s.reg i data now
+  constructor
+  · rintro ⟨h1, h2⟩
+    refine ⟨h1, h2, ?_⟩
+    rcases h2 with h | h
+    · exact Or.inl (h3.1 h)
+    · exact Or.inr (hE.1 h)
+  · rintro ⟨h1, h2, -⟩
+    exact ⟨h1, h2⟩
+
+/-- **What a consumed injection means for the fault-injection list**: `failNext` is written only by `failNext`
+events (one entry added) and by the `client` / `flush` events that consume entries; whatever a `client` or
+`flush` event removes are failed sends, one entry per failed batch — so the `client` / `flush` arms of
+`LossCause` say that one of the batches that failed in this event was this link's. -/
+theorem C01_failNext_only_shrinks_in_data_events (s : Sys F) (now : Nat) (pkt : Bytes) (a : Nat) :
+    (step s (.client now pkt)).1.failNext.count a ≤ s.failNext.count a ∧
+    (step s (.flush now)).1.failNext.count a ≤ s.failNext.count a :=
+  ⟨client_fnLe s pkt now a, flush_fnLe s now a⟩
 
 /-! ## 8. Not dropped when a link is selectable -/
 
@@ -523,6 +572,40 @@ example :
     (@run Int fixScalar exSys [.failNext 1, .client 5000 exData, .flush 5010]).1.failNext = [] := by
   decide +kernel
 
+/-- The `client` arm of `LossCause`, on a run: an injected failure for conn id 1 is pending; three control
+packets are queued on link 0 (low-activity regime, batch 4); the fourth datagram reaches the threshold, the flush
+FAILS, the injection is CONSUMED by this very event (`failNext`: `[1]` before, `[]` after), nothing reaches the
+wire, all four datagrams are discarded and link 0 is torn down (`mark_for_recovery`: not connected,
+registering).  Link 1 only receives its probe copy. -/
+example :
+    let s3 := (@run Int fixScalar exSys [.failNext 1, .client 5000 exCtl, .client 5001 exCtl, .client 5002 exCtl]).1
+    s3.failNext = [1] ∧ (s3.links.map (·.queue.length)) = [3, 0] ∧
+    @target Int fixScalar s3 exData 5003 = some 0 ∧
+    (@step Int fixScalar s3 (.client 5003 exData)).1.failNext = [] ∧
+    (@step Int fixScalar s3 (.client 5003 exData)).2.wire = [] ∧
+    ((@step Int fixScalar s3 (.client 5003 exData)).1.links.map fun l =>
+        (l.queue.length, l.core.connected, decide (l.core.phase = .registering))) =
+      [(0, false, true), (1, true, false)] := by
+  decide +kernel
+
+/-- … and `C01_lost_only_by_reset_or_failed_send` applied to it: the first queued control packet is neither in
+link 0's queue nor on its socket afterwards, so `LossCause` holds — in particular its new conjunct, the
+consumption of the injection. -/
+example :
+    let s3 := (@run Int fixScalar exSys [.failNext 1, .client 5000 exCtl, .client 5001 exCtl, .client 5002 exCtl]).1
+    ∀ l l', s3.links[0]? = some l → (@step Int fixScalar s3 (.client 5003 exData)).1.links[0]? = some l' →
+      (exCtl, none, 5000) ∈ l.queue ++ @appended Int fixScalar s3 (.client 5003 exData) 0 →
+      (exCtl, none, 5000) ∉ l'.queue →
+      exCtl ∉ dataWire (.client 5003 exData) (@step Int fixScalar s3 (.client 5003 exData)).2 l.core.connId →
+      (@step Int fixScalar s3 (.client 5003 exData)).1.failNext.count l.core.connId < s3.failNext.count l.core.connId := by
+  intro s3 l l' hl hl' hx hq hw
+  exact ((@C01_loss_cause_def Int fixScalar s3 0 l l').1 5003 exData).1
+    (@C01_lost_only_by_reset_or_failed_send Int fixScalar s3 (.client 5003 exData) (by decide +kernel) 0 l l' hl hl'
+      _ hx hq hw) |>.2
+
+example (now : Nat) (pkt : Bytes) (a : Nat) :=
+  @C01_failNext_only_shrinks_in_data_events Int fixScalar (@step Int fixScalar exSys (.failNext 1)).1 now pkt a
+
 /-- No link can be chosen (both disconnected): the datagram is dropped (`C01_dropped_when_no_link`). -/
 example :
     @target Int fixScalar
@@ -541,13 +624,25 @@ example :
     (Reg.processRegistrationPacket exSys.reg 0 (Codec.toBE16 Gen.Proto.SRTLA_TYPE_REG_ERR) 5001).2 = some .regErr := by
   decide +kernel
 
-/-- Housekeeping at `now = 20000`: both links have been silent for 15 s, housekeeping reconnects them
-(`reset_for_reconnect`), the queued datagram is discarded; the `hk` clause of `LossCause` holds of the
-post-state. -/
+/-- Housekeeping at `now = 20000`: both links have been silent for 15 s — in the state the tick starts with both
+are timed out AND due for a reconnect attempt (the CAUSE in the `hk` clause of `LossCause`) —, housekeeping
+reconnects them (`reset_for_reconnect`), the queued datagram is discarded; the post-state part of the clause
+(attempt stamp 20000, not connected, registering) holds as well. -/
 example :
+    ((@run Int fixScalar exSys [.client 5000 exCtl]).1.links.map
+        fun l => (l.queue.length, @FLink.isTimedOut Int fixScalar l 20000, l.shouldAttemptReconnect 20000)) =
+      [(1, true, true), (0, true, true)] ∧
     ((@run Int fixScalar exSys [.client 5000 exCtl, .hk 20000]).1.links.map
         fun l => (l.queue, l.lastAttemptMs, l.core.connected, decide (l.core.phase = .registering))) =
       [([], 20000, false, true), ([], 20000, false, true)] := by
+  decide +kernel
+
+/-- A tick at `now = 6000` instead (nothing is timed out yet): the `hk` cause is FALSE for both links and the
+queue survives the tick. -/
+example :
+    ((@run Int fixScalar exSys [.client 5000 exCtl]).1.links.map
+        fun l => @FLink.isTimedOut Int fixScalar l 6000) = [false, false] ∧
+    ((@run Int fixScalar exSys [.client 5000 exCtl, .hk 6000]).1.links.map (·.queue.length)) = [1, 0] := by
   decide +kernel
 
 /-- The chunk loop on a concrete kernel behaviour (short send, then the rest): instance of
@@ -664,7 +759,10 @@ theorem C01_exactly_once_run (s : Sys F) (h : Inv s) (evs : List Ev) :
 end of a run names an event of the run (`evs[k]`), and that event, applied to the state the run had
 reached after its first `k` events, discarded the link's queue for one of the four admissible reasons
 (`LossCause`, spelled out in `C01_loss_cause_def`: failed threshold send + `mark_for_recovery`, failed
-periodic send, REG3 / REG_ERR on this link, housekeeping reconnect). -/
+periodic send — in both cases the injected failure for the link's conn id is CONSUMED by that very event —,
+REG3 / REG_ERR on this link's conn id, housekeeping reconnect of a link that was timed out and due for an attempt
+when the tick started).  The eleven-constructor alphabet includes `failBind`, `stamp`, `syncTimeout`: none of
+them ever files anything under `lost`. -/
 theorem C01_lost_has_cause_run (s : Sys F) (h : Inv s) (evs : List Ev) (i : Nat) (b : Bins)
     (hb : (runG (ginit s) evs).bins[i]? = some b) :
     ∀ kx ∈ b.lost, ∃ ev l l', evs[kx.1]? = some ev ∧
@@ -760,5 +858,143 @@ example :
   decide +kernel
 
 end ghostExamples
+
+/-! ## 11. The fourth bin: dropped only without a usable link -/
+
+/-- **Bookkeeping of the `dropped` bin** (any scalar instance, any start state): every entry of `dropped` at the end
+of a run names a `client` event of the run (`evs[k]`) with a NON-EMPTY datagram, is exactly that datagram under the
+tag that was fresh when the event was processed, and the routing decision of that event — in the state the run had
+reached after its first `k` events — was `none`. -/
+theorem C01_dropped_bookkeeping_run (s : Sys F) (evs : List Ev) :
+    ∀ x ∈ (runG (ginit s) evs).dropped, ∃ k now pkt,
+      evs[k]? = some (.client now pkt) ∧ pkt ≠ [] ∧ x = ((runG (ginit s) (evs.take k)).next, pkt) ∧
+      target (run s (evs.take k)).1 pkt now = none := by
+  obtain ⟨extra, e1, e2⟩ := runG_dropped (ginit s) evs
+  intro x hx
+  rw [e1] at hx
+  have hx' : x ∈ extra := by simpa [ginit] using hx
+  obtain ⟨k, now, pkt, q1, q2, q3, q4⟩ := e2 x hx'
+  exact ⟨k, now, pkt, q1, (by intro h; rw [h] at q2; cases q2), q3, q4⟩
+
+section droppedRun
+open Srtla.Props.C03 Srtla.SysInv
+variable {K : Type} [Field K] [LinearOrder K] [IsStrictOrderedRing K] [FloorRing K] (e : K → K) (ninf : K)
+
+local notation "𝕊" => fieldScalar K e ninf
+
+/-- The quality cache stays in its documented range along every run (ordered field, `ExpLaw`). -/
+theorem qualRange_run (he : ExpLaw e) (s : Sys K) (evs : List Ev)
+    (h : All (fun l => QualRange l.qualMult) s.links) :
+    All (fun l => QualRange l.qualMult) (@run K 𝕊 s evs).1.links := by
+  induction evs generalizing s with
+  | nil => exact h
+  | cons ev evs ih =>
+    exact ih _ (@step_all K 𝕊 (fun l => QualRange l.qualMult) s ev
+      (fun _ _ => qualRange_closed e ninf he _ _ _) h)
+
+/-- **Dropped only without a usable link — over every run.**  Scalar code read in an arbitrary linearly ordered
+field with floor (`ExpLaw e`, as `C01_no_drop_when_usable`; IEEE rounding / NaN not covered).  Start state: the
+accounting invariant (`hs`, literally the body of `SysInv` of `Props/SysLevel.lean`) and the quality cache in
+`[0.35, 1.1·1.03]` (`hq`, the body of `QualInv`) — both hold initially and along every run; `Inv` (distinct conn
+ids, queues < 32) is NOT needed for this statement.  Then at the end of ANY run, every entry of the `dropped` bin
+of the instrumented run was accepted by a `client` event `evs[k]` (non-empty datagram, tag = the counter `next`
+at that moment) whose PRE-state `sk = run s (evs.take k)` had NO usable link at the event's clock:
+* established session (`has_connected`): no link of `sk` is in a registered phase, connected and not timed out
+  w.r.t. the configured connection timeout (`UsableCfg`, the hypothesis of `C03_no_blackout`);
+* before the first registration completes: EVERY link of `sk` is timed out at that clock
+  (`select_pre_registration_connection` takes the first link that is not).
+So the fourth bin of `C01_exactly_once_run` is empty along any run in which every client datagram arrives while
+some link is usable. -/
+theorem C01_dropped_only_without_usable_link_run (he : ExpLaw e) (s : Sys K)
+    (hs : ∀ l ∈ s.links, LogInv l.core ∧ 1000 ≤ l.core.window ∧ l.core.window ≤ 60000 ∧ 0 ≤ l.core.inFlight ∧
+      ∀ it ∈ l.queue, ∀ sq, it.2.1 = some sq → sq < 2147483648)
+    (hq : ∀ l ∈ s.links, (0.35 : K) ≤ l.qualMult ∧ l.qualMult ≤ 1.1 * 1.03)
+    (evs : List Ev) :
+    ∀ x ∈ (@runG K 𝕊 (@ginit K s) evs).dropped, ∃ k now pkt,
+      evs[k]? = some (.client now pkt) ∧ pkt ≠ [] ∧
+      x = ((@runG K 𝕊 (@ginit K s) (evs.take k)).next, pkt) ∧
+      @target K 𝕊 (@run K 𝕊 s (evs.take k)).1 pkt now = none ∧
+      ((@run K 𝕊 s (evs.take k)).1.reg.hasConnected = true →
+        ∀ l ∈ (@run K 𝕊 s (evs.take k)).1.links,
+          ¬ UsableCfg (@FLink.toSLink K 𝕊 l) (@run K 𝕊 s (evs.take k)).1.cfg now) ∧
+      ((@run K 𝕊 s (evs.take k)).1.reg.hasConnected = false →
+        ∀ l ∈ (@run K 𝕊 s (evs.take k)).1.links, @FLink.isTimedOut K 𝕊 l now = true) := by
+  intro x hx
+  obtain ⟨k, now, pkt, q1, q2, q3, q4⟩ := @C01_dropped_bookkeeping_run K 𝕊 s evs x hx
+  refine ⟨k, now, pkt, q1, q2, q3, q4, fun hreg l hl hu => ?_, fun hreg => ?_⟩
+  · -- established: a usable link would have been chosen
+    have hLI : All LinkInv (@run K 𝕊 s (evs.take k)).1.links :=
+      @SysDir.linkInv_run K 𝕊 s (evs.take k) (fun l hl => by
+        obtain ⟨a, b, c, d, f⟩ := hs l hl
+        exact ⟨a, b, c, d, f⟩)
+    have hQ := qualRange_run e ninf he s (evs.take k) hq
+    refine @C01_no_drop_when_usable K _ _ _ _ e ninf he (@run K 𝕊 s (evs.take k)).1 pkt now hreg ?_
+      ⟨l, hl, hu⟩ q4
+    intro l' hl'
+    have hi := hLI l' hl'
+    obtain ⟨g1, g2⟩ := hQ l' hl'
+    exact ⟨hi.wlo, hi.whi, hi.inf, Int.natCast_nonneg _, g1, g2⟩
+  · -- not yet established: the pre-registration choice is the first link that is not timed out
+    have ht : @target K 𝕊 (@run K 𝕊 s (evs.take k)).1 pkt now =
+        @selectPreRegistration K 𝕊 (@run K 𝕊 s (evs.take k)).1.links
+          (@run K 𝕊 s (evs.take k)).1.lastSelected now := by
+      unfold target; simp [hreg]
+    rw [ht] at q4
+    exact @selectPreRegistration_none K 𝕊 _ _ _ q4
+
+end droppedRun
+
+section droppedExamples
+
+/-- Non-vacuity of the bookkeeping on the toy scalar: in `exG3` (both links disconnected, established session) the
+one accepted datagram is in `dropped`; it names event 0, tag 0, and the routing decision there is `none`; in the
+pre-state no link is connected, so none is usable. -/
+example :
+    exG3.dropped = [(0, exData)] ∧
+    @target Int fixScalar
+      { exSys with links := [{ exLinkA with core := { exLinkA.core with connected := false } },
+                             { exLinkB with core := { exLinkB.core with connected := false } }] }
+      exData 5000 = none ∧
+    (([{ exLinkA with core := { exLinkA.core with connected := false } },
+       { exLinkB with core := { exLinkB.core with connected := false } }] : List (FLink Int)).map
+        (·.core.connected)) = [false, false] := by
+  decide +kernel
+
+example (evs : List Ev) := @C01_dropped_bookkeeping_run Int fixScalar exSys evs
+
+/-- Over `ℚ`: a state that meets the hypotheses of `C01_dropped_only_without_usable_link_run` — one live connected
+link with a consistent packet log (5 and 7 in flight, `in_flight = 2`), one fresh link, quality caches `1.0`. -/
+noncomputable def exSysQ2 : Sys ℚ :=
+  { links :=
+      [{ (@FLink.newRegistering ℚ ratScalar 1 0) with
+          core := { connId := 1, connected := true, phase := .live, window := 1050, inFlight := 2,
+                    log := [(5, 100), (7, 120)], highestAcked := 4, lastReceived := some 4990 },
+          established := 1, queue := [([0, 0, 0, 9, 0, 0, 0, 0], some 9, 4000)] },
+       @FLink.newRegistering ℚ ratScalar 2 0],
+    reg := { (Srtla.Reg.Reg.new [] []) with hasConnected := true } }
+
+example (evs : List Ev) :=
+  C01_dropped_only_without_usable_link_run (fun x : ℚ => 1 / (1 - x)) (-1) expLaw_rat exSysQ2
+    (by
+      intro l hl
+      simp only [exSysQ2, List.mem_cons, List.not_mem_nil, or_false] at hl
+      rcases hl with rfl | rfl
+      · refine ⟨⟨by decide, by decide, by decide⟩, by decide, by decide, by decide, ?_⟩
+        intro it hit sq hsq
+        simp only [List.mem_singleton] at hit
+        subst hit
+        cases hsq
+        decide
+      · have := @SysInv.linkInv_new ℚ ratScalar 2 0
+        exact ⟨this.log, this.wlo, this.whi, this.inf, this.queue⟩)
+    (by
+      intro l hl
+      simp only [exSysQ2, List.mem_cons, List.not_mem_nil, or_false] at hl
+      rcases hl with rfl | rfl
+      · exact SysInv.qualRange_new _ _ 1 0
+      · exact SysInv.qualRange_new _ _ 2 0)
+    evs
+
+end droppedExamples
 
 end Srtla.Props.C01
